@@ -170,7 +170,7 @@ pub fn prop() -> Prop<PowerCase> {
             "merges use thresholds that make every non-empty file eligible",
         ],
         needs_shim: true,
-        budget: |t| t.pick(1200, 30_000),
+        budget: |t| t.pick(3200, 40000),
         shards: |_| 16,
         strategy,
         exec,
